@@ -107,6 +107,28 @@ def run(rep, tier, seed):
     diffs += core.diff_answers(wcs, hw, mw)
     cs = cs + [(i, l.replace('cpspy|', 'cps|', 1)) for i, l in wcs]
     h.update(hw)
+    # HISTORIES: sibling programs (one-slot edits, first slots preferred; also tables of 9+ slots) asked in a row on
+    # ONE thread, same goal and radius: the answer must not depend on what was asked before
+    # (added after seeded change C06-m5: a per-thread memo keyed by a fingerprint that drops the first slots of big tables)
+    scs = []
+    nseq = 150 if tier == 'quick' else 1500
+    for i in range(nseq):
+        S, C = rngw.choice([(3, 3), (5, 2), (2, 5), (4, 3), (6, 2), (2, 6), (3, 2), (2, 3), (4, 2), (2, 4)])
+        g, r = rngw.choice(GOALS), rngw.choice([3, 3, 4, 5])
+        for j, p in enumerate(gen.sibling_sequence(rngw, S, C, 6)):
+            scs.append((f's{i}_{j}', f'cps|{g}|{p}|{r}'))
+    sl = [f'{i}|{l}' for i, l in scs]
+    hs = core.run_bbh(sl, threads=1)
+    ms = core.run_bbm(sl)
+    diffs += core.diff_answers(scs, hs, ms)
+    cs = cs + scs
+    h.update(hs)
+    dist['sibling_histories_one_thread'] = len(scs)
+    global HISTORY
+    HISTORY = {}
+    for i, (cid, line) in enumerate(scs):
+        k, j = cid[1:].split('_')
+        HISTORY[cid] = [l for c, l in scs[i - int(j):i]]
     fals, ntrue, nprogs = falsified(cs, h, 10000 if tier == 'quick' else 100000)
     fails = []
     nf2 = 0
@@ -141,10 +163,17 @@ def run(rep, tier, seed):
     return diffs, fails
 
 
+HISTORY = {}
+
+
 def search(rep, diffs, fails):
     for cid, line, why in fails[:3]:
         _, g, p, r = line.split('|')
-        rep.violation({'kind': 'property-failure', 'goal': g, 'program': p, 'radius': int(r), 'why': why}, found=True)
+        rec = {'kind': 'property-failure', 'goal': g, 'program': p, 'radius': int(r), 'why': why}
+        if HISTORY.get(cid):
+            rec['history'] = HISTORY[cid]
+            rec['why'] += ' — asked on ONE thread after the calls listed under `history` (in that order)'
+        rep.violation(rec, found=True)
     if fails:
         return
     extra = []
